@@ -114,7 +114,8 @@ func traceScenario(w *world) engine.Scenario {
 		}
 		logN := c.Choose(w.logN, "logN")
 		variant := c.Choose(2, "variant") // 0: Trace into a fresh ciphertext, 1: TraceNew wrapper (ckks) / in place
-		uni.Seed(c, name, logN, variant)
+		coeff := c.Choose(2, "domain") == 1
+		uni.Seed(c, name, logN, variant, coeff)
 		N := 1 << w.logN
 		co := make([]int64, N)
 		for i := range co {
@@ -131,6 +132,9 @@ func traceScenario(w *world) engine.Scenario {
 		}
 		o := w.newOps(list)
 		ct := w.encryptCoeffs(co)
+		if coeff {
+			w.toCoeff(ct)
+		}
 		var out *rlwe.Ciphertext
 		var err error
 		var pan interface{}
